@@ -9,6 +9,7 @@ package main
 
 import (
 	"fmt"
+	"go/constant"
 	"go/token"
 	"go/types"
 	"strings"
@@ -27,12 +28,18 @@ type c19org struct {
 	types  []types.Type // types[k] = static type of root.fields[:k]; len(fields)+1 entries
 	facts  []Fact       // conditions under which this origin is the one selected
 	via    []c19via     // every field selection the value went through, also those resolved to what was stored there
+	ctx    []c19frame   // the calls that were entered when the root was reached (an object built by a constructor helper
+	// keeps the call it was built for: the fields the constructor fills from its parameters are read in that context)
 }
 
-// c19via: "the value was read from field `field` of a value of type owner".
+// c19via: "the value was read from field `field` of a value of type owner". carried: the selection was resolved to
+// what had been stored into that field of an object built in view (a struct that only carries the value from where
+// it was chosen to where it is used: `upstream{tr: tr}.handler()`); the fields the value went through BEFORE it was
+// put there precede this entry.
 type c19via struct {
-	owner types.Type
-	field string
+	owner   types.Type
+	field   string
+	carried bool
 }
 
 func (o c19org) key() string {
@@ -62,15 +69,26 @@ func (o c19org) key() string {
 	return s
 }
 
-// lastField: the last field selection the value went through: (package path of the struct's named type, type name,
-// field name). It is kept even when the selection was resolved to the value stored into that field.
+// lastField: the field the value was taken from: the last field selection the value went through that is part of its
+// access path, i.e. not a mere carrier (a field of an object built in view, resolved to what was stored into it:
+// the `tr` of `upstream{tr: p.InsecureTransport}` says nothing about where the transport comes from). When the value
+// went through carriers only, the last carrier with a transport role counts. Returns (package path of the struct's
+// named type, type name, field name).
 func (o c19org) lastField() (pkg, typ, field string) {
-	if len(o.via) == 0 {
-		return "", "", ""
+	for k := len(o.via) - 1; k >= 0; k-- {
+		if v := o.via[k]; !v.carried {
+			pkg, typ = c19named(v.owner)
+			return pkg, typ, v.field
+		}
 	}
-	v := o.via[len(o.via)-1]
-	pkg, typ = c19named(v.owner)
-	return pkg, typ, v.field
+	for k := len(o.via) - 1; k >= 0; k-- {
+		v := o.via[k]
+		pkg, typ = c19named(v.owner)
+		if c19transportRole(pkg, v.field) != "" {
+			return pkg, typ, v.field
+		}
+	}
+	return "", "", ""
 }
 
 // c19named: package path and name of the named type behind t (through pointers and aliases).
@@ -147,7 +165,7 @@ type c19flow struct {
 
 	addrMode bool // resolving the target of a store: do not look through struct copies
 
-	stack  []ssa.CallInstruction // calls entered (helper results); their parameters map back to these calls only
+	stack  []c19frame // calls entered (helper results); their parameters map back to these calls only
 	onPath map[c19fkey]bool
 	hops   int
 	steps  int
@@ -178,6 +196,9 @@ func c19dedupe(in []c19org) []c19org {
 		for _, f := range o.facts {
 			k += fmt.Sprintf("%p=%v,", f.Cond, f.Truth)
 		}
+		for _, fr := range o.ctx {
+			k += fmt.Sprintf("@%p", fr.site)
+		}
 		if !seen[k] {
 			seen[k] = true
 			out = append(out, o)
@@ -186,15 +207,42 @@ func c19dedupe(in []c19org) []c19org {
 	return out
 }
 
+// c19frame: a call whose callee fn was entered to resolve its result (fn is the static callee, or one of the
+// implementations of the interface method invoked).
+type c19frame struct {
+	site ssa.CallInstruction
+	fn   *ssa.Function
+}
+
 func (r *c19flow) top() ssa.CallInstruction {
 	if len(r.stack) == 0 {
 		return nil
 	}
-	return r.stack[len(r.stack)-1]
+	return r.stack[len(r.stack)-1].site
+}
+
+// c19argOf: the argument of the call at site that parameter number idx of callee fn receives (the receiver of an
+// interface method call is the interface value).
+func c19argOf(site ssa.CallInstruction, idx int) ssa.Value {
+	cc := site.Common()
+	if cc.IsInvoke() {
+		if idx == 0 {
+			return cc.Value
+		}
+		idx--
+	}
+	if idx < 0 || idx >= len(cc.Args) {
+		return nil
+	}
+	return cc.Args[idx]
 }
 
 func (r *c19flow) leaf(v ssa.Value, t types.Type, facts []Fact) []c19org {
-	return []c19org{{root: v, types: []types.Type{t}, facts: facts}}
+	o := c19org{root: v, types: []types.Type{t}, facts: facts}
+	if _, isObj := v.(*ssa.Alloc); isObj && len(r.stack) > 0 {
+		o.ctx = append([]c19frame{}, r.stack...)
+	}
+	return []c19org{o}
 }
 
 func (r *c19flow) walk(v ssa.Value, facts []Fact) []c19org {
@@ -323,23 +371,35 @@ func (r *c19flow) load(addr ssa.Value, t types.Type, facts []Fact) []c19org {
 // sel applies a field selection to origins; a field of a freshly built object is whatever was stored into it.
 func (r *c19flow) sel(os []c19org, owner types.Type, field string, t types.Type) []c19org {
 	var out []c19org
-	mark := func(from int) {
+	mark := func(from int, carried bool) {
 		for k := from; k < len(out); k++ {
-			if n := len(out[k].via); n > 0 && out[k].via[n-1] == (c19via{owner, field}) {
+			if n := len(out[k].via); n > 0 && out[k].via[n-1] == (c19via{owner, field, carried}) {
 				continue
 			}
-			out[k].via = append(append([]c19via{}, out[k].via...), c19via{owner, field})
+			out[k].via = append(append([]c19via{}, out[k].via...), c19via{owner, field, carried})
 		}
 	}
 	for _, o := range os {
 		from := len(out)
 		if a, ok := o.root.(*ssa.Alloc); ok && len(o.fields) == 0 && !r.addrMode {
 			n := 0
+			// the object's own construction is read in the context it was built in
+			saved := r.stack
+			if k := len(o.ctx); k > 0 && c19within(a.Parent(), o.ctx[k-1].fn) {
+				r.stack = append([]c19frame{}, o.ctx...)
+			}
 			for _, st := range fieldStores(a)[field] {
 				n++
 				out = append(out, r.walk(st.Val, c19facts(o.facts, localFactsAt(st.Block())...))...)
 			}
-			// a struct variable assigned as a whole (p := cfg.Proxy; a spilled struct parameter): the field of what was assigned
+			r.stack = saved
+			for _, st := range c19aliasFieldStores(a, field) {
+				n++
+				out = append(out, r.walk(st.Val, c19facts(o.facts, factsAt(st.Block())...))...)
+			}
+			mark(from, true)
+			// a struct variable assigned as a whole (p := cfg.Proxy; a spilled struct parameter): the field of what was
+			// assigned (the inner selection records itself)
 			for _, ref := range *a.Referrers() {
 				if st, ok := ref.(*ssa.Store); ok && st.Addr == a {
 					n++
@@ -347,14 +407,23 @@ func (r *c19flow) sel(os []c19org, owner types.Type, field string, t types.Type)
 				}
 			}
 			if n > 0 {
-				mark(from)
 				continue
 			}
 		}
 		out = append(out, o.sel(field, t))
-		mark(from)
+		mark(from, false)
 	}
 	return out
+}
+
+// c19within: f is fn or a closure nested in fn.
+func c19within(f, fn *ssa.Function) bool {
+	for ; f != nil; f = f.Parent() {
+		if f == fn {
+			return true
+		}
+	}
+	return false
 }
 
 func c19bindings(fv *ssa.FreeVar) []ssa.Value {
@@ -387,36 +456,59 @@ func (r *c19flow) param(x *ssa.Parameter, facts []Fact) []c19org {
 			}
 		}
 	}
-	top := r.top()
-	if top != nil && fn != nil && top.Common().StaticCallee() == fn {
+	if n := len(r.stack); n > 0 && fn != nil && r.stack[n-1].fn == fn {
 		// realizable path: back to the call we came in through
-		cc := top.Common()
-		if idx < 0 || idx >= len(cc.Args) {
+		top := r.stack[n-1]
+		arg := c19argOf(top.site, idx)
+		if arg == nil {
 			return r.leaf(x, x.Type(), facts)
 		}
-		r.stack = r.stack[:len(r.stack)-1]
+		r.stack = r.stack[:n-1]
 		defer func() { r.stack = append(r.stack, top) }()
-		return r.walk(cc.Args[idx], facts)
+		return r.recvOnly(r.walk(arg, facts), top.site, x, idx)
 	}
-	if top != nil || fn == nil || idx < 0 || (r.stopParam != nil && r.stopParam(x)) {
+	if fn == nil || idx < 0 || (r.stopParam != nil && r.stopParam(x)) {
 		return r.leaf(x, x.Type(), facts)
 	}
-	sites := gSites[fn]
+	sites := append(append([]ssa.CallInstruction{}, gSites[fn]...), c19invokeSitesOf(fn)...)
 	if len(sites) == 0 || r.hops >= c19maxHops {
 		return r.leaf(x, x.Type(), facts)
 	}
+	// a parameter of a function other than the one entered last (an object filled in by another function, a closure
+	// of the helper): all its call sites, outside the context of the calls entered
+	saved := r.stack
+	r.stack = nil
 	r.hops++
-	defer func() { r.hops-- }()
+	defer func() { r.hops--; r.stack = saved }()
 	var out []c19org
 	if gAddrTaken[fn] {
 		out = append(out, r.leaf(x, x.Type(), facts)...) // may also be called through a function value
 	}
 	for _, s := range sites {
-		cc := s.Common()
-		if idx >= len(cc.Args) || s.Block() == nil {
+		arg := c19argOf(s, idx)
+		if arg == nil || s.Block() == nil {
 			continue
 		}
-		out = append(out, r.walk(cc.Args[idx], c19facts(facts, factsAt(s.Block())...))...)
+		out = append(out, r.recvOnly(r.walk(arg, c19facts(facts, factsAt(s.Block())...)), s, x, idx)...)
+	}
+	return out
+}
+
+// recvOnly: the receiver of a method reached through an interface method call is the interface's content only when
+// that content has the receiver's type; origins of other dynamic types belong to other implementations.
+func (r *c19flow) recvOnly(os []c19org, site ssa.CallInstruction, x *ssa.Parameter, idx int) []c19org {
+	if idx != 0 || !site.Common().IsInvoke() {
+		return os
+	}
+	wp, wn := c19named(x.Type())
+	var out []c19org
+	for _, o := range os {
+		if _, isIface := o.types[len(o.types)-1].Underlying().(*types.Interface); !isIface {
+			if p, n := c19named(o.types[len(o.types)-1]); p != wp || n != wn {
+				continue
+			}
+		}
+		out = append(out, o)
 	}
 	return out
 }
@@ -424,26 +516,171 @@ func (r *c19flow) param(x *ssa.Parameter, facts []Fact) []c19org {
 func (r *c19flow) call(x *ssa.Call, idx int, t types.Type, facts []Fact) []c19org {
 	cc := &x.Call
 	self := []c19org{{root: x, idx: idx, types: []types.Type{t}, facts: facts}}
+	var callees []*ssa.Function
 	if cc.IsInvoke() {
+		// a method of an interface declared in the repository: the methods that implement it (an interface in the
+		// place of a helper or callback)
+		callees = c19implsOf(cc)
+		if len(callees) == 0 {
+			return self
+		}
+	} else {
+		if kind, cell, _, ok := atomicOp(cc); ok && kind == "load" {
+			return c19retype(r.load(cell, t, facts), t)
+		}
+		sc := cc.StaticCallee()
+		if sc == nil || !isRepoFn(sc) || len(sc.Blocks) == 0 {
+			return self
+		}
+		callees = []*ssa.Function{sc}
+	}
+	if r.hops >= c19maxHops {
 		return self
 	}
-	if kind, cell, _, ok := atomicOp(cc); ok && kind == "load" {
-		return c19retype(r.load(cell, t, facts), t)
+	for _, sc := range callees {
+		if r.opaque != nil && r.opaque(sc) {
+			return self
+		}
 	}
-	sc := cc.StaticCallee()
-	if sc == nil || !isRepoFn(sc) || len(sc.Blocks) == 0 || (r.opaque != nil && r.opaque(sc)) || r.hops >= c19maxHops {
-		return self
-	}
-	r.hops++
-	r.stack = append(r.stack, ssa.CallInstruction(x))
-	defer func() { r.hops--; r.stack = r.stack[:len(r.stack)-1] }()
 	var out []c19org
 	at := c19facts(facts, localFactsAt(x.Block())...)
-	eachInstr(sc, func(i ssa.Instruction) {
-		if ret, ok := i.(*ssa.Return); ok && idx < len(ret.Results) {
-			out = append(out, r.walk(ret.Results[idx], c19facts(at, localFactsAt(ret.Block())...))...)
+	for _, sc := range callees {
+		r.hops++
+		r.stack = append(r.stack, c19frame{ssa.CallInstruction(x), sc})
+		eachInstr(sc, func(i ssa.Instruction) {
+			if ret, ok := i.(*ssa.Return); ok && idx < len(ret.Results) {
+				out = append(out, r.walk(ret.Results[idx], c19facts(at, localFactsAt(ret.Block())...))...)
+			}
+		})
+		r.hops--
+		r.stack = r.stack[:len(r.stack)-1]
+	}
+	return out
+}
+
+// ---- program-wide indexes ------------------------------------------------------------------------------------------
+
+// c19prog is rebuilt by runC19 for the program being checked (c19index).
+var c19prog struct {
+	fieldStores map[string][]*ssa.Store          // "pkg.Type.field" -> stores into that field through a pointer other than the Alloc itself
+	invokes     map[string][]ssa.CallInstruction // method name -> calls of a repository interface's method of that name
+	methods     map[string][]*ssa.Function       // method name -> repository methods
+	alias       map[c19aliasKey][]*ssa.Store
+	impls       map[*types.Func][]*ssa.Function
+}
+
+type c19aliasKey struct {
+	a     *ssa.Alloc
+	field string
+}
+
+func c19index(c *Ctx) {
+	c19prog.fieldStores = map[string][]*ssa.Store{}
+	c19prog.invokes = map[string][]ssa.CallInstruction{}
+	c19prog.methods = map[string][]*ssa.Function{}
+	c19prog.alias = map[c19aliasKey][]*ssa.Store{}
+	c19prog.impls = map[*types.Func][]*ssa.Function{}
+	for _, f := range c.AllFns {
+		if f.Signature.Recv() != nil && f.Parent() == nil {
+			c19prog.methods[f.Name()] = append(c19prog.methods[f.Name()], f)
 		}
-	})
+		eachInstr(f, func(i ssa.Instruction) {
+			if st, ok := i.(*ssa.Store); ok {
+				if fa, isFA := st.Addr.(*ssa.FieldAddr); isFA {
+					if _, direct := fa.X.(*ssa.Alloc); !direct {
+						if pkg, name := c19named(fa.X.Type()); name != "" {
+							k := pkg + "." + name + "." + fieldName(fa.X.Type(), fa.Field)
+							c19prog.fieldStores[k] = append(c19prog.fieldStores[k], st)
+						}
+					}
+				}
+			}
+			if ci, ok := i.(ssa.CallInstruction); ok {
+				if cc := ci.Common(); cc.IsInvoke() && cc.Method.Pkg() != nil && strings.HasPrefix(cc.Method.Pkg().Path(), repoMod) {
+					c19prog.invokes[cc.Method.Name()] = append(c19prog.invokes[cc.Method.Name()], ci)
+				}
+			}
+		})
+	}
+}
+
+// c19implements: the receiver type of method f (or a pointer to it) implements the interface type it.
+func c19implements(f *ssa.Function, it types.Type) bool {
+	iface, ok := it.Underlying().(*types.Interface)
+	if !ok || f.Signature.Recv() == nil {
+		return false
+	}
+	rt := f.Signature.Recv().Type()
+	if types.Implements(rt, iface) {
+		return true
+	}
+	if _, isPtr := rt.Underlying().(*types.Pointer); !isPtr {
+		return types.Implements(types.NewPointer(rt), iface)
+	}
+	return false
+}
+
+// c19implsOf: the repository methods a call of an interface method can run, when the interface is declared in the
+// repository and has few implementations.
+func c19implsOf(cc *ssa.CallCommon) []*ssa.Function {
+	if cc.Method == nil || cc.Method.Pkg() == nil || !strings.HasPrefix(cc.Method.Pkg().Path(), repoMod) {
+		return nil
+	}
+	if out, ok := c19prog.impls[cc.Method]; ok {
+		return out
+	}
+	var out []*ssa.Function
+	for _, f := range c19prog.methods[cc.Method.Name()] {
+		if len(f.Blocks) > 0 && c19implements(f, cc.Value.Type()) {
+			out = append(out, f)
+		}
+	}
+	if len(out) > 4 {
+		out = nil
+	}
+	if c19prog.impls != nil {
+		c19prog.impls[cc.Method] = out
+	}
+	return out
+}
+
+// c19invokeSitesOf: the interface method calls in the repository that can run method fn.
+func c19invokeSitesOf(fn *ssa.Function) []ssa.CallInstruction {
+	if fn.Signature.Recv() == nil || fn.Parent() != nil {
+		return nil
+	}
+	var out []ssa.CallInstruction
+	for _, s := range c19prog.invokes[fn.Name()] {
+		if c19implements(fn, s.Common().Value.Type()) {
+			out = append(out, s)
+		}
+	}
+	return out
+}
+
+// c19aliasFieldStores: the stores into field `field` of the object built at a that are made through another pointer
+// to it (a method or helper that fills the object in: `u.use(tr)` with `func (u *upstream) use(tr) { u.tr = tr }`).
+func c19aliasFieldStores(a *ssa.Alloc, field string) []*ssa.Store {
+	k := c19aliasKey{a, field}
+	if out, ok := c19prog.alias[k]; ok {
+		return out
+	}
+	var out []*ssa.Store
+	pkg, name := c19named(a.Type())
+	if name != "" {
+		fl := &c19flow{addrMode: true}
+		for _, st := range c19prog.fieldStores[pkg+"."+name+"."+field] {
+			for _, o := range fl.origins(st.Addr.(*ssa.FieldAddr).X) {
+				if o.root == ssa.Value(a) && len(o.fields) == 0 {
+					out = append(out, st)
+					break
+				}
+			}
+		}
+	}
+	if c19prog.alias != nil {
+		c19prog.alias[k] = out
+	}
 	return out
 }
 
@@ -496,6 +733,33 @@ func c19expand(facts []Fact) []Fact {
 					way = c19facts(way, Fact{e, f.Truth})
 				}
 				alts = append(alts, way)
+			}
+		case *ssa.BinOp:
+			// a verdict kept as a value of an enumeration (`switch classify(err) { case failTimeout: ...`): the ways the
+			// compared value can be that constant
+			if x.Op != token.EQL && x.Op != token.NEQ {
+				break
+			}
+			k, isK := x.Y.(*ssa.Const)
+			other := x.X
+			if !isK {
+				k, isK = x.X.(*ssa.Const)
+				other = x.Y
+			}
+			if !isK || k.Value == nil {
+				break
+			}
+			wantEq := (x.Op == token.EQL) == f.Truth
+			orgs := (&c19flow{}).origins(other)
+			for _, o := range orgs {
+				kc, isConst := o.root.(*ssa.Const)
+				if !isConst || len(o.fields) != 0 || kc.Value == nil || kc.Value.Kind() != k.Value.Kind() {
+					alts = nil // one way the value comes about is not visible
+					break
+				}
+				if constant.Compare(kc.Value, token.EQL, k.Value) == wantEq {
+					alts = append(alts, append([]Fact{}, o.facts...))
+				}
 			}
 		case *ssa.Call:
 			sc := x.Call.StaticCallee()
